@@ -136,7 +136,86 @@ def canonical(desc, v):
     return v
 
 
+def run_lost_fragment(ctx, model):
+    """a fragmented write of which one fragment never reaches the controller: the k-th Write Tag Fragmented request is
+    answered by an error reply made up on the spot and NOT handed to the target.  A write the driver then reports as done
+    (truthy Tag) must be in the controller's memory — whatever fragment it was, first, middle or last."""
+    import struct
+    from props.c04 import sized_project
+    rng = ctx.rng
+    for i in range(ctx.budget(10, 80)):
+        size = rng.choice([1200, 1500, 2600, 9000])
+        large = size > 5000
+        p = sized_project(rng, [(size, "big"), (40, "o1")])
+        sess = lx.Session(model, p, conn_large=large)
+        if sess.open_error is not None:
+            sess.close()
+            continue
+        multi = rng.random() < 0.4
+        value = [rng.randrange(1, 127) for _ in range(size)]
+
+        def call():
+            if multi:
+                return sess.d.write(("big{%d}" % size, value), ("o1{4}", [1, 2, 3, 4]))
+            return sess.d.write(("big{%d}" % size, value))
+        # healthy run: how many fragments, and a reply to use as a template
+        f0, r0 = len(sess.sock.frames), len(sess.sock.replies)
+        try:
+            core.with_budget(60, call)
+        except BaseException as e:  # noqa
+            if isinstance(e, (KeyboardInterrupt, SystemExit)):
+                raise
+            sess.close()
+            continue
+        frag_idx = [j for j, f in enumerate(sess.sock.frames[f0:]) if len(f) > 47 and f[:2] == b"\x70\x00" and f[46] == 0x53]
+        if len(frag_idx) < 2:
+            sess.close()
+            continue
+        template = sess.sock.replies[r0 + frag_idx[0]]
+        k = rng.choice([0, 0, len(frag_idx) // 2, len(frag_idx) - 2, len(frag_idx) - 1])
+        value = [(v % 126) + 1 if True else v for v in [x + 1 for x in value]]      # another value, no byte equal to the old one
+        st = {"n": 0}
+
+        def answer(msg, st=st, k=k, template=template):
+            if len(msg) > 47 and msg[:2] == b"\x70\x00" and msg[46] == 0x53:
+                j = st["n"]
+                st["n"] += 1
+                if j == k:
+                    out = bytearray(template[:48]) + bytes([rng.choice([0x02, 0x05, 0x10]), 0])
+                    out[44:46] = msg[44:46]
+                    struct.pack_into("<H", out, 2, len(out) - 24)
+                    struct.pack_into("<H", out, 42, len(out) - 44)
+                    return bytes(out)
+            return None
+        sess.sock.answer = answer
+        ctx.case("lost-fragment", ("lost", i, size, k, multi))
+        ctx.count("lost-fragment/fragments", len(frag_idx))
+        case = {"tag_bytes": size, "fragments": len(frag_idx), "lost_fragment": k, "with_other_request": multi, "connection": 4000 if large else 500}
+        try:
+            res = core.with_budget(60, call)
+        except BaseException as e:  # noqa
+            if isinstance(e, (KeyboardInterrupt, SystemExit)):
+                raise
+            cls = core.exn_class(e)
+            if cls.startswith("foreign"):
+                ctx.violation("write-raises:" + cls.split(":")[-1], case, repr(e)[:200])
+            sess.sock.answer = None
+            sess.close()
+            continue
+        sess.sock.answer = None
+        t = res[0] if isinstance(res, list) else res
+        mem, _ = sess.mem()
+        sym = next(s_ for s_ in p["controller"] if s_.name == "big")
+        held = mem.get((None, sym.inst))
+        if t and held != bytes(value):
+            diff = next((j for j, (a, b) in enumerate(zip(held, bytes(value))) if a != b), None)
+            ctx.violation("write-reported-done-but-not-stored", case,
+                          "Tag is truthy, the controller's memory differs from the value from byte %s on (fragment %d of %d never arrived)" % (diff, k, len(frag_idx)))
+        sess.close()
+
+
 def run(ctx, model):
+    run_lost_fragment(ctx, model)
     from props import logixdrv
     logixdrv.run_writes(ctx, model, "C02")
     logixdrv.run_mixed(ctx, model, "C02")
